@@ -40,8 +40,18 @@ struct common_type_multi_impl<void_t<typename common_type<T1, T2>::type>, T1, T2
     : common_type<typename common_type<T1, T2>::type, R...> { };
 } // namespace detail
 
+namespace detail {
+// T1 or T2 is not a decayed type: the member type, if any, of common_type<D1, D2>, which may
+// be a program-defined specialisation (chrono::duration, chrono::time_point, ...).
+template <typename T1, typename T2, typename D1 = decay_t<T1>, typename D2 = decay_t<T2>>
+struct common_type_2_dispatch : common_type<D1, D2> { };
+
+template <typename D1, typename D2>
+struct common_type_2_dispatch<D1, D2, D1, D2> : common_type_2_impl<D1, D2> { };
+} // namespace detail
+
 template <typename T1, typename T2>
-struct common_type<T1, T2> : detail::common_type_2_impl<decay_t<T1>, decay_t<T2>> { };
+struct common_type<T1, T2> : detail::common_type_2_dispatch<T1, T2> { };
 
 template <typename T1, typename T2, typename... R>
 struct common_type<T1, T2, R...> : detail::common_type_multi_impl<void, T1, T2, R...> { };
